@@ -90,14 +90,14 @@ def multiset_diff(ret, exp):
     return exp, extra      # missing, extra
 
 
-def h_run(W, N, E, D, poison, efn, callsrc, dbl, dup, second, s0, s1, s2, s3, s4, s5, s6, s7, s8, s9, s10, s11):
+def h_run(W, N, E, D, poison, efn, callsrc, dbl, dup, second, glitch, s0, s1, s2, s3, s4, s5, s6, s7, s8, s9, s10, s11):
     # The symbolic integers never enter pyworkers code here: they are consumed by comparisons in _conc() and
     # Sched.pick() (SymbolicInt.__eq__/__bool__ talk to the solver directly), so the opcode tracer is not needed.
     with notrace():
-        return _h_run(W, N, E, D, poison, efn, callsrc, dbl, dup, second, [s0, s1, s2, s3, s4, s5, s6, s7, s8, s9, s10, s11])
+        return _h_run(W, N, E, D, poison, efn, callsrc, dbl, dup, second, glitch, [s0, s1, s2, s3, s4, s5, s6, s7, s8, s9, s10, s11])
 
 
-def _h_run(W, N, E, D, poison, efn, callsrc, dbl, dup, second, ss):
+def _h_run(W, N, E, D, poison, efn, callsrc, dbl, dup, second, glitch, ss):
     vos.reset()
     W = max(1, _conc(W, 4))
     N = _conc(N, 7)
@@ -109,8 +109,9 @@ def _h_run(W, N, E, D, poison, efn, callsrc, dbl, dup, second, ss):
     dbl = _conc(dbl, 2)
     dup = _conc(dup, 3)
     second = _conc(second, 2)
+    glitch = _conc(glitch, 2)
     sched = Sched(ss)
-    env = poolenv.Env(sched, W, D, poison=(poison - 1 if poison else None), double_ready=bool(dbl))
+    env = poolenv.Env(sched, W, D, poison=(poison - 1 if poison else None), double_ready=bool(dbl), glitches=glitch)
     ev("run", W, N, E, D, poison, efn, callsrc, dbl)
     pool = make_pool(env, retry=True)
     kind, val = run_pool(pool, env, N, E, efn_bits=efn, use_callable=bool(callsrc), dup=dup)
@@ -172,7 +173,7 @@ def _second_run(pool, env, E):
 
 
 _params = OrderedDict([("W", (1, 3)), ("N", (0, 6)), ("E", (0, 2)), ("D", (0, 3)), ("poison", (0, 6)), ("efn", (0, 63)),
-                       ("callsrc", (0, 1)), ("dbl", (0, 1)), ("dup", (0, 2)), ("second", (0, 1))] + [("s%d" % i, (0, 5)) for i in range(NSCHED)])
+                       ("callsrc", (0, 1)), ("dbl", (0, 1)), ("dup", (0, 2)), ("second", (0, 1)), ("glitch", (0, 1))] + [("s%d" % i, (0, 5)) for i in range(NSCHED)])
 
 _FUNCS = ["pyworkers.pool:Pool.run", "pyworkers.pool:Pool.__init__", "pyworkers.pool:Pool._get_all_workers_ids",
           "pyworkers.pool:Pool._get_all_queues", "pyworkers.pool:Pool._aux_connection"]
@@ -183,7 +184,7 @@ H_RUN = Harness(
         "quick": {"ranges": {"W": (1, 2), "N": (0, 4), "E": (0, 1), "D": (0, 2), "poison": (0, 1), "dup": (0, 1)},
                   "fixed": {"callsrc": 0, "dbl": 0, "efn": 0},
                   "partition": ["W", "N", "E", "D", "dup"], "filter": (lambda f: (f["D"] < 2 or f["N"] <= 2) and (f["dup"] == 0 or (f["N"] in (2, 3) and f["D"] == 1))), "timeout": 200,
-                  "extra_pre": ["second == 0 or (N <= 2 and dup == 0 and D <= 1)"],
+                  "extra_pre": ["second == 0 or (N <= 2 and dup == 0 and D <= 1)", "glitch == 0 or (second == 0 and dup == 0 and N <= 3 and D <= 1 and poison == 0)"],
                   "twin_fixed": {"W": 2, "N": 3, "E": 1, "D": 1, "dup": 0}},
         # thorough: the quick space widened one dimension at a time (a full cross product is out of reach): a third worker,
         # extra pending 2, a third death, poison on any input, refusing enqueue function, callable input source, two pipes
@@ -192,7 +193,7 @@ H_RUN = Harness(
                      "partition": ["W", "N", "E", "D", "dup"],
                      "filter": (lambda f: (f["W"] <= 2 or (f["N"] <= 3 and f["D"] <= 1 and f["E"] <= 1)) and (f["E"] <= 1 or (f["N"] <= 3 and f["D"] <= 1))
                                 and (f["D"] <= 1 or f["N"] <= 2 + (f["D"] == 2)) and (f["dup"] == 0 or (f["N"] in (2, 3) and f["D"] == 1 and f["W"] == 2))),
-                     "extra_pre": ["(efn > 0) + (callsrc > 0) + (dbl > 0) + (second > 0) + (poison > 1) <= 1",
+                     "extra_pre": ["(efn > 0) + (callsrc > 0) + (dbl > 0) + (second > 0) + (poison > 1) + (glitch > 0) <= 1",
                                    "second == 0 or (N <= 3 and D <= 1)", "efn == 0 or N <= 3"],
                      "timeout": 1200, "twin_fixed": {"W": 2, "N": 3, "E": 1, "D": 1, "dup": 0}},
     },
@@ -208,9 +209,11 @@ SPEC = PropSpec(
         "discovered at enqueue time (WorkerClosedError)",
         "fairness is built in: every wait() makes some possible event happen; if none is possible the pool would block forever (Hang)",
         "time.sleep is a no-op",
+        "glitch: one enqueue may fail on a worker that still reports alive - either transiently (the retry succeeds) or because the worker has closed its input "
+        "pipe and is about to exit (is_alive() keeps answering True for 0-2 more calls)",
     ],
     outside=["real workers and real SIGKILL timing (the sampling half of the quantifier)", "more than 3 workers / 6 inputs / 12 schedule decisions",
-             "enqueue raising on a live worker (e.g. unpicklable input)"],
+             "an enqueue that keeps raising on a worker that stays alive (e.g. an unpicklable input): Pool.run retries it forever by design"],
     stubs=["poolenv.Env.wait for multiprocessing.connection.wait", "poolenv.FakePW for persistent workers", "time.sleep no-op"],
     technique="CrossHair/z3 symbolic execution of the real Pool.run against a symbolic-schedule environment",
 )
